@@ -44,7 +44,8 @@ NOT_ASSERTED = ['Cell.__str__ / print(cell): the rendered text is itself the unf
 
 
 def BOUNDS(tier):
-    return {'dag_nodes_all_shapes': 4 if tier == 'quick' else 5, 'family_depth': 40, 'boc_field_values': FIELD_VALUES,
+    return {'dag_shapes': 'all with <= 3 cells, 4 cells with <= 3 refs each' if tier == 'quick' else 'all with <= 4 cells, 5 cells with <= 2 refs each', 'family_depth': 40,
+            'parser_mem_budget': '262144 + 512*len', 'dict_tower_depth': 20 if tier == 'quick' else 24, 'boc_field_values': FIELD_VALUES,
             'dag_budget': '60*(n+e+1)^2+5000', 'parser_budget': 'min(400*(len+16), 300000)', 'exhaustive': True}
 
 
@@ -203,21 +204,31 @@ def dag_ops(rec, rc, name, fn, args, dead=None):
     rec.notes['dag_max_steps_seen'] = max(rec.notes.get('dag_max_steps_seen', 0), box.get('max', (0, ''))[0])
 
 
-def shard_shapes(rec, n, part, parts):
+def _shape_refs(n, tier):
+    """references per cell in the enumerated shapes: quick: all shapes up to 3 cells, 4 cells with <= 3 references each; thorough: all shapes
+    up to 4 cells, 5 cells with <= 2 references each (cost blow-ups need depth, which the sharing families provide - not width)"""
+    if n <= 3:
+        return 4
+    if n == 4:
+        return 3 if tier == 'quick' else 4
+    return 2
+
+
+def shard_shapes(rec, n, part, parts, max_refs=None):
     rec.covered('dag:shape')
-    for si, shape in enumerate(dags.enum_shapes(n, 4 if n <= 4 else 2)):
+    for si, shape in enumerate(dags.enum_shapes(n, max_refs or _shape_refs(n, rec.tier))):
         if si % parts != part:
             continue
         rc = dags.build_ref(shape, 'ua')[0]
-        dag_ops(rec, rc, f'shape n={n} #{si} {shape}', 'case_shape', {'n': n, 'si': si})
+        dag_ops(rec, rc, f'shape n={n} #{si} {shape}', 'case_shape', {'n': n, 'si': si, 'max_refs': max_refs or _shape_refs(n, rec.tier)})
     if part == 0:
         rec.sample({'dag_shape': [list(x) for x in next(iter(dags.enum_shapes(n, 2)))], 'ops': 'construct,to_boc x6,from_boc,order,copy,...', 'budget': 'see rule'})
 
 
-def case_shape(rec, n, si):
-    for i, shape in enumerate(dags.enum_shapes(n, 4 if n <= 4 else 2)):
+def case_shape(rec, n, si, max_refs=None):
+    for i, shape in enumerate(dags.enum_shapes(n, max_refs or _shape_refs(n, rec.tier))):
         if i == si:
-            dag_ops(rec, dags.build_ref(shape, 'ua')[0], f'shape n={n} #{si} {shape}', 'case_shape', {'n': n, 'si': si})
+            dag_ops(rec, dags.build_ref(shape, 'ua')[0], f'shape n={n} #{si} {shape}', 'case_shape', {'n': n, 'si': si, 'max_refs': max_refs or _shape_refs(n, rec.tier)})
             return
 
 
